@@ -61,8 +61,10 @@ template<class MS, class SetP> static void reuse_case(const std::string &nm, con
 template<class P> static void set_pre(P &p) {}
 static void set_pre(AMG1::params &p) { p.coarse_enough=2; } static void set_pre(AMG2::params &p) { p.coarse_enough=2; }
 template<class S> using MS1 = amgcl::make_solver<AMG1,S>; template<class S> using MS2 = amgcl::make_solver<AMG2,S>; template<class S> using MS3 = amgcl::make_solver<ILU,S>; template<class S> using MS4 = amgcl::make_solver<DUM,S>;
-template<template<class> class MSx, class S, class Ex> static void one(const std::string &pn, const std::string &sn, const Pattern &p, hx::Rng &rng, int k, Ex extra, bool stateful=false) {
-    reuse_case<MSx<S>>(pn+"+"+sn+"/k"+std::to_string(k), p, rng, [&](typename MSx<S>::params &prm) { prm.solver.maxiter=k; prm.solver.tol=scalar(1e-8); prm.solver.abstol=scalar(0); extra(prm.solver); set_pre(prm.precond); }, stateful); }
+// smoothed coarsest level (direct_coarse = false): the coarsest solution vector is the smoother's initial guess and must not carry over between applications
+template<class P> static void set_dc(P &p) {} static void set_dc(AMG1::params &p) { p.direct_coarse=false; } static void set_dc(AMG2::params &p) { p.direct_coarse=false; }
+template<template<class> class MSx, class S, class Ex> static void one(const std::string &pn, const std::string &sn, const Pattern &p, hx::Rng &rng, int k, Ex extra, bool stateful=false, bool smoothed_coarsest=false) {
+    reuse_case<MSx<S>>(pn+"+"+sn+"/k"+std::to_string(k), p, rng, [&](typename MSx<S>::params &prm) { prm.solver.maxiter=k; prm.solver.tol=scalar(1e-8); prm.solver.abstol=scalar(0); extra(prm.solver); set_pre(prm.precond); if (smoothed_coarsest) set_dc(prm.precond); }, stateful); }
 
 // a call that is INTERRUPTED by an exception (thrown by the preconditioner at its k-th application, as a failing backend operation would)
 // leaves no trace: the next call on the same solver object performs exactly the operations of the same call on a fresh object
@@ -104,6 +106,7 @@ int main(int argc, char **argv) {
         if (light) one<MS4,sv::lgmres<BE>>("dummy","lgmres-noreset",p,rng,k+1,[](auto &s){ s.M=1; s.K=2; s.always_reset=false; },true);
         if (light) one<MS1,sv::idrs<BE>>("amg-sa-spai0","idrs",p,rng,k,[](auto &s){ s.s=2; }); if (light) one<MS4,sv::idrs<BE>>("dummy","idrs-s1-smooth",p,rng,k,[](auto &s){ s.s=1; s.smoothing=true; }); if (light) one<MS3,sv::idrs<BE>>("ilu0","idrs-repl",p,rng,k,[](auto &s){ s.s=2; s.replacement=true; });
         one<MS1,sv::richardson<BE>>("amg-sa-spai0","richardson",p,rng,k,none); one<MS3,sv::richardson<BE>>("ilu0","richardson",p,rng,k,none);
+        if (k==1 || T) { one<MS1,sv::cg<BE>>("amg-sa-spai0-smoothed-coarsest","cg",p,rng,k,none,false,true); one<MS2,sv::richardson<BE>>("amg-agg-gs-smoothed-coarsest","richardson",p,rng,k,none,false,true); }
     }
     { Pattern p=hx::band_pattern(4,1); /* 4 unknowns: the cut-coefficient polynomials of 3 Krylov iterations on 6 unknowns need 3 GB per case */ namespace side=amgcl::preconditioner::side;
       for (int at=2; at<=(T?6:4); ++at) { int k=3;
